@@ -18,9 +18,7 @@ def run(tier):
     profiles.nickname_enforce(prog, rep)
     profiles.normalizer_shape(prog, rep, "normalization_form_nfkc", "nfkc")
     # the Nickname operations are built on stabilize: its contract (C13) is a premise of this property
-    from . import C13
-
-    rep.include(C13.run(tier), "C13")
+    profiles.include_leaves(rep, [("C13", "stabilize contract"), ("C12", "space rule"), ("C14", "derived property behind FreeformClass"), ("C02", "FreeformClass::allows")])
     rep.extra["exhaustive"] = True
     rep.extra["prerequisites"] = ["C13 (stabilize contract)", "C12 (space rule)", "C02/C14 (FreeformClass)"]
     rep.assumptions += ["stabilize honours its contract (C13)", "trim_spaces is the RFC 8266 §2.3 mapping (C12)"]
